@@ -28,6 +28,8 @@ pub fn source_lines(text: &str) -> Vec<&str> {
 pub struct Parsed {
     pub quoted: Vec<(usize, String)>,
     pub description: String,
+    /// (first underlined column, 1-based, in characters; number of carets)
+    pub underline: (usize, usize),
 }
 
 /// R7: read a rendered error. Err(reason) when the message does not have the documented shape.
@@ -74,13 +76,15 @@ pub fn read_message(msg: &str) -> Result<Parsed, String> {
         return Err("no underline / description line".into());
     }
     let Some(rest) = is_bar(lines[i]) else { return Err(format!("expected the `  | ^^^ description` line, found {:?}", lines[i])) };
-    let after = rest.trim_start_matches(' ').trim_start_matches('^');
+    let after_spaces = rest.trim_start_matches(' ');
+    let after = after_spaces.trim_start_matches('^');
+    let underline = (rest.len() - after_spaces.len(), after_spaces.len() - after.len());
     let mut description = after.trim_start_matches(' ').to_string();
     for l in &lines[i + 1..] {
         description.push('\n');
         description.push_str(l);
     }
-    Ok(Parsed { quoted, description })
+    Ok(Parsed { quoted, description, underline })
 }
 
 /// Single-case verdict for replays: None when the text compiles; Err(reason) when the message is wrong.
@@ -108,7 +112,24 @@ pub fn verdict(text: &str) -> Option<Result<(), String>> {
             return Some(Err("line numbers not consecutive".into()));
         }
     }
+    if let Some(why) = underline_outside(&p) {
+        return Some(Err(why));
+    }
     Some(Ok(()))
+}
+
+/// The location must lie inside the file: for a message that quotes one line, the underlined columns must be columns
+/// of that line (one column past its end is allowed: errors located at the end of a line).
+fn underline_outside(p: &Parsed) -> Option<String> {
+    if p.quoted.len() != 1 || p.underline.1 == 0 {
+        return None;
+    }
+    let chars = p.quoted[0].1.chars().count();
+    let (start, len) = p.underline;
+    if start + len - 1 > chars + 1 {
+        return Some(format!("underline covers columns {start}..{} of line {}, which has {chars} columns", start + len - 1, p.quoted[0].0));
+    }
+    None
 }
 
 /// Judge one text: if compilation fails, the message must quote its lines verbatim.
@@ -165,6 +186,11 @@ pub fn judge(rep: &Report, text: &str, origin: &str) {
                 }
             }
             if ok {
+                if let Some(why) = underline_outside(&p) {
+                    rep.class("UNDERLINE-OUTSIDE-LINE");
+                    rep.violation("C20:location-outside-line", format!("{why}; origin {origin}"), replay("underline outside the quoted line"));
+                    return;
+                }
                 rep.class("quotes-ok");
                 let err_line = src[p.quoted[0].0 - 1];
                 if p.quoted.len() >= 2 || err_line.contains('\t') || !err_line.is_ascii() {
